@@ -108,9 +108,10 @@ Lemma Inv_links_only s K h' :
   heap_same_but_links (heap_of s) h' -> heap_wf h' -> symmetric h' ->
   (forall y x kd, 0 < lget h' y (x, kd) ->
      0 < lget (heap_of s) y (x, kd) \/ (livein (heap_of s) y /\ livein (heap_of s) x)) ->
+  (forall y x, 0 < lget h' y (x, Loop) -> 0 < lget (heap_of s) y (x, Loop) \/ x = y) ->
   Inv (set_heap s h') K.
 Proof.
-  intros HI Hs Hwf Hsym Hnew. pose proof Hs as [Hlen Hfw].
+  intros HI Hs Hwf Hsym Hnew Hloop. pose proof Hs as [Hlen Hfw].
   assert (Hboth : forall y x kd, 0 < lget h' y (x, kd) ->
             livein (heap_of s) y /\ livein (heap_of s) x).
   { intros y x kd Hp. destruct (Hnew y x kd Hp) as [Hold|Hl]; [|exact Hl]. split.
@@ -127,8 +128,10 @@ Proof.
     destruct (N.eq_dec (tbl_get (btable b') (x, kd)) 0) as [E|E]; [exact E|]. exfalso.
     assert (Hp : 0 < lget h' o (x, kd)) by (unfold lget; rewrite Hb'; lia).
     destruct (Hboth o x kd Hp) as [Ho _]. destruct (Hlive' o Ho) as (b2 & Hb2 & L2). congruence.
-  - split; [exact Hwf|exact Hsym|]. intros a x kd Hp. destruct (Hboth a x kd Hp) as [_ Hx].
-    apply Hlive'. exact Hx.
+  - split; [exact Hwf|exact Hsym| |].
+    + intros a x kd Hp. destruct (Hboth a x kd Hp) as [_ Hx]. apply Hlive'. exact Hx.
+    + intros a x Hp. destruct (Hloop a x Hp) as [Hold|E]; [|exact E].
+      apply (ti_loop _ (inv_tbl s K HI) a x Hold).
 Qed.
 
 (** special case: records are only removed or decremented *)
@@ -138,8 +141,9 @@ Lemma Inv_links_shrink s K h' :
   (forall y l, lget h' y l <= lget (heap_of s) y l) ->
   Inv (set_heap s h') K.
 Proof.
-  intros HI Hs Hwf Hsym Hle. apply Inv_links_only; [exact HI|exact Hs|exact Hwf|exact Hsym|].
-  intros y x kd Hp. left. specialize (Hle y (x, kd)). lia.
+  intros HI Hs Hwf Hsym Hle. apply Inv_links_only; [exact HI|exact Hs|exact Hwf|exact Hsym| |].
+  - intros y x kd Hp. left. specialize (Hle y (x, kd)). lia.
+  - intros y x Hp. left. specialize (Hle y (x, Loop)). lia.
 Qed.
 
 (** ** resolved references *)
@@ -308,6 +312,21 @@ Proof.
       * left. lia.
 Qed.
 
+Lemma adopt_loop h same a b h' : adopt h same a b = Ok h' -> (same = true -> a = b) ->
+  forall y x, 0 < lget h' y (x, Loop) -> 0 < lget h y (x, Loop) \/ x = y.
+Proof.
+  intros H Hsame y x Hp. destruct same.
+  - specialize (Hsame eq_refl); subst b. destruct (adopt_same_handle_spec _ _ _ H) as (S & P).
+    rewrite S in Hp. destruct (Nat.eqb y a && link_eqb (x, Loop) (a, Loop)) eqn:C.
+    + apply andb_true_iff in C as [C1 C2]. apply Nat.eqb_eq in C1. apply link_eqb_eq in C2.
+      injection C2 as ->. right. auto.
+    + left. lia.
+  - destruct (adopt_spec _ _ _ _ H) as (S & P). rewrite S in Hp.
+    assert (link_eqb (x, Loop) (b, Fwd) = false) as E1 by (apply link_eqb_neq; congruence).
+    assert (link_eqb (x, Loop) (a, Bwd) = false) as E2 by (apply link_eqb_neq; congruence).
+    rewrite E1, E2, !andb_false_r in Hp. left. lia.
+Qed.
+
 Lemma links_remove_le h o l n h' : heap_wf h -> links_remove h o l n = Ok h' ->
   (forall y l', lget h' y l' <= lget h y l') /\ heap_same_but_links h h' /\ heap_wf h'.
 Proof.
@@ -367,15 +386,16 @@ Proof.
   assert (Hsame : hloc_eqb l1 l2 = true -> a = b).
   { apply (same_handle_same_target s self h1 h2); assumption. }
   destruct (adopt_new_entries _ _ _ _ _ E Hsame) as (P & Hnew).
-  pose proof (inv_tbl _ _ HI) as [Twf Tsym Tnm].
+  pose proof (inv_tbl _ _ HI) as [Twf Tsym Tnm Tlp].
   apply getb_ok in Ga as [Na _]. apply getb_ok in Gb as [Nb _].
   assert (Hla : livein (heap_of s) a) by (exists ba; auto).
   assert (Hlb : livein (heap_of s) b) by (exists bb; auto).
-  apply Inv_links_only; [exact HI|exact P| | |].
+  apply Inv_links_only; [exact HI|exact P| | | |].
   - apply (adopt_wf _ _ _ _ _ Twf E).
   - apply (adopt_symmetric _ _ _ _ _ Tsym E Hsame).
   - intros y x kd Hp. destruct (Hnew y x kd Hp) as [Hold|[Hy Hx]]; [left; exact Hold|right].
     split; [destruct Hy as [-> | ->]|destruct Hx as [-> | ->]]; assumption.
+  - apply (adopt_loop _ _ _ _ _ E Hsame).
 Qed.
 
 (** [Rc::unadopt(this, other)] on two handles to live objects never faults and
@@ -389,7 +409,7 @@ Proof.
   unfold act_safe in Hsafe. apply safe_two in Hsafe as [Hs1 Hs2].
   destruct (resolve_live s self pc k h1 a l1 HI E1 Hs1) as (ba & ta & Ga & La & Ta).
   destruct (resolve_live s self pc k h2 b l2 HI E2 Hs2) as (bb & tb & Gb & Lb & Tb).
-  pose proof (inv_tbl _ _ HI) as [Twf Tsym Tnm].
+  pose proof (inv_tbl _ _ HI) as [Twf Tsym Tnm Tlp].
   destruct (unadopt_ok (heap_of s) (hloc_eqb l1 l2) a b ba ta bb tb Twf Ga Ta Gb Tb) as [h' E].
   unfold lift. rewrite E. cbn [act_post app]. split; [tauto|].
   destruct (unadopt_le _ _ _ _ _ Twf E) as (Hle & P & W).
